@@ -40,6 +40,7 @@ from __future__ import annotations
 import json
 import random
 import re
+import zlib
 from html.parser import HTMLParser
 from typing import Any, Dict, List, Optional, Tuple
 
@@ -443,13 +444,16 @@ def api_entry_points(chk: Check, mc: List[Tuple[List[Dict[str, Any]], Dict[int, 
     #     eligible page; the expectation is the exported one (the field `via` does not enter Run)
     for pages, pexp in mc:
         sel, sexp = [], {}
-        for k, p in enumerate(pages):
+        for p in pages:
             if pexp[p["id"]]["zone"] or not api_nodes(p["page"]):
                 continue
             reuse = _reuses_instance(p)
-            if not reuse and k % mc_every:
+            # (TLC's export order varies from run to run: selection and entry points are drawn from the page itself)
+            h = zlib.crc32(json.dumps([p["mode"], p["page"]], sort_keys=True).encode())
+            if not reuse and h % mc_every:
                 continue
-            q = api_variant(p, 2 * 10 ** 6 + p["id"], rnd, drivers=kept if reuse else API_DRIVERS, bare=0.0)
+            q = api_variant(p, 2 * 10 ** 6 + p["id"], random.Random(chk.seed * 1000003 + h),
+                            drivers=kept if reuse else API_DRIVERS, bare=0.0)
             sel.append(q)
             sexp[q["id"]] = dict(pexp[p["id"]], id=q["id"])
             chk.add("api_pages_one_instance_many_renders", 1 if reuse else 0)
